@@ -45,8 +45,65 @@ enum Shape {
     PrefixChain,
 }
 
+/// how the keys reach the builder
+#[derive(Clone, Copy, PartialEq)]
+enum Entry {
+    Single,
+    /// SetBuilder::extend_stream / MapBuilder::extend_stream fed by an on-the-fly streamer
+    ExtendStream,
+    /// extend_iter fed by an on-the-fly iterator
+    ExtendIter,
+}
+
+struct GenStream<'a> {
+    c: Cfg,
+    i: u64,
+    buf: Vec<u8>,
+    digits: &'a [u8],
+}
+impl<'a> GenStream<'a> {
+    fn fill(&mut self) -> Option<usize> {
+        if self.i >= self.c.n {
+            return None;
+        }
+        let i = self.i;
+        self.i += 1;
+        let len = self.c.len;
+        Some(match self.c.shape {
+            Shape::Fixed => {
+                key_into(&mut self.buf[..len], i * self.c.stride, self.c.radix, self.digits);
+                len
+            }
+            Shape::PrefixChain => {
+                key_into(&mut self.buf[..len], (i / 4) * self.c.stride, self.c.radix, self.digits);
+                self.buf[len] = b'/';
+                self.buf[len + 1] = b'x';
+                self.buf[len + 2] = b'y';
+                len + (i % 4) as usize
+            }
+        })
+    }
+}
+impl<'s, 'a> fst::Streamer<'s> for GenStream<'a> {
+    type Item = &'s [u8];
+    fn next(&'s mut self) -> Option<&'s [u8]> {
+        let l = self.fill()?;
+        Some(&self.buf[..l])
+    }
+}
+struct GenMapStream<'a>(GenStream<'a>);
+impl<'s, 'a> fst::Streamer<'s> for GenMapStream<'a> {
+    type Item = (&'s [u8], u64);
+    fn next(&'s mut self) -> Option<(&'s [u8], u64)> {
+        let i = self.0.i;
+        let l = self.0.fill()?;
+        Some((&self.0.buf[..l], mix(i) >> 20))
+    }
+}
+
 #[derive(Clone, Copy)]
 struct Cfg {
+    entry: Entry,
     shape: Shape,
     trickle: Option<usize>,
     n: u64,
@@ -68,6 +125,38 @@ fn measure(c: Cfg) -> Result<allocmeter::Reading, String> {
 fn measure_on<W: io::Write>(c: Cfg, sink: W) -> Result<allocmeter::Reading, String> {
     let digits: Vec<u8> = if c.radix <= 10 { (b'0'..=b'9').collect() } else { b"0123456789ABCDEFGHIJKLMNOPQRSTUVWXYZabcdefghijklmnopqrstuvwxyz{|".to_vec() };
     let mut buf = vec![0u8; c.len + 3];
+    if c.entry != Entry::Single {
+        // through the Set/Map builders' bulk entry points (default geometry only: they have no geometry hook)
+        let sec = allocmeter::start();
+        let res: Result<(), String> = (|| {
+            if c.set {
+                let mut b = fst::SetBuilder::new(sink).map_err(|e| e.to_string())?;
+                if c.entry == Entry::ExtendStream {
+                    b.extend_stream(GenStream { c, i: 0, buf: vec![0u8; c.len + 3], digits: &digits }).map_err(|e| e.to_string())?;
+                } else {
+                    let mut g = GenStream { c, i: 0, buf: vec![0u8; c.len + 3], digits: &digits };
+                    b.extend_iter(std::iter::from_fn(move || g.fill().map(|l| g.buf[..l].to_vec()))).map_err(|e| e.to_string())?;
+                }
+                b.finish().map_err(|e| e.to_string())
+            } else {
+                let mut b = fst::MapBuilder::new(sink).map_err(|e| e.to_string())?;
+                if c.entry == Entry::ExtendStream {
+                    b.extend_stream(GenMapStream(GenStream { c, i: 0, buf: vec![0u8; c.len + 3], digits: &digits })).map_err(|e| e.to_string())?;
+                } else {
+                    let mut g = GenStream { c, i: 0, buf: vec![0u8; c.len + 3], digits: &digits };
+                    b.extend_iter(std::iter::from_fn(move || {
+                        let i = g.i;
+                        g.fill().map(|l| (g.buf[..l].to_vec(), mix(i) >> 20))
+                    }))
+                    .map_err(|e| e.to_string())?;
+                }
+                b.finish().map_err(|e| e.to_string())
+            }
+        })();
+        let r = sec.stop();
+        res?;
+        return Ok(r);
+    }
     // section 1: construction (what is RETAINED afterwards counts as steady state)
     let sec = allocmeter::start();
     let b = match c.geom {
@@ -122,6 +211,9 @@ pub fn run(ctx: &Ctx) -> i32 {
         ("decimal-map-on-1-byte-per-call-sink", 10, 10, false, None, 1, Shape::Fixed, Some(1)),
         ("prefix-chain-map-on-3-bytes-per-call-sink", 10, 10, false, Some((100, 2)), 1, Shape::PrefixChain, Some(3)),
         ("prefix-chain-map-geom-100x2", 10, 10, false, Some((100, 2)), 1, Shape::PrefixChain, None),
+        // fan-out 64 (nodes with a transition index) with unboundedly many distinct wide nodes
+        ("base64-len6-map-geom-100x2", 64, 6, false, Some((100, 2)), 1, Shape::Fixed, None),
+        ("base64-len6-set-geom-7x2", 64, 6, true, Some((7, 2)), 3, Shape::Fixed, None),
         ("prefix-chain-set-geom-7x2", 10, 10, true, Some((7, 2)), 1, Shape::PrefixChain, None),
         ("decimal-map-geom-1x1-on-1-byte-per-call-sink", 10, 10, false, Some((1, 1)), 1, Shape::Fixed, Some(1)),
     ];
@@ -133,11 +225,17 @@ pub fn run(ctx: &Ctx) -> i32 {
     } else {
         series.push(("decimal-map-geom-100x2", 10, 10, false, Some((100, 2)), 1, Shape::Fixed, None));
     }
+    series.push(("extend_stream:decimal-set", 10, 10, true, None, 1, Shape::Fixed, None));
+    series.push(("extend_stream:prefix-chain-map", 10, 10, false, None, 1, Shape::PrefixChain, None));
+    series.push(("extend_iter:decimal-map", 10, 10, false, None, 3, Shape::Fixed, None));
+    series.push(("extend_stream:wide-alphabet-set", 64, 12, true, None, 0x0101_0101, Shape::Fixed, None));
     for (name, radix, len, set, geom, stride, shape, trickle) in series {
+        let entry = if name.starts_with("extend_stream:") { Entry::ExtendStream } else if name.starts_with("extend_iter:") { Entry::ExtendIter } else { Entry::Single };
         let (rows, cols) = geom.unwrap_or((10_000, 2));
         let k = bound(rows, cols, radix as usize + 1, len + 3);
         // the slope test is only sound once every cache cell has been used: small geometries saturate within 10^4 keys,
         // the default 20000-cell table keeps filling up to ~10^7 keys (there only the a-priori bound is judged)
+        // bulk entry points run on the default table; their own growth is judged against the plain series of the same shape
         let small_cache = rows * cols <= 1000;
         let mut prev: Option<(u64, u64)> = None;
         for &n in &scales {
@@ -146,7 +244,7 @@ pub fn run(ctx: &Ctx) -> i32 {
             }
             // trickle sinks make every byte a write call: keep those series one scale smaller
             let n = if trickle.is_some() { n / 10 } else { n };
-            let cfg = Cfg { shape, trickle, n, radix, len, set, geom, stride };
+            let cfg = Cfg { entry, shape, trickle, n, radix, len, set, geom, stride };
             let seed_n = n + (ctx.seed % 1000); // the seed perturbs N slightly; the claim is about every N
             let cfg = Cfg { n: seed_n, ..cfg };
             ev.eval(Some(crate::rng::fnv_u64(crate::rng::fnv(name.as_bytes()), seed_n)));
@@ -186,9 +284,9 @@ pub fn run(ctx: &Ctx) -> i32 {
         ev,
         Spec {
             level: "exploration",
-            rule: "one evaluation = one complete build of N keys streamed to io::sink() with the counting global allocator armed (single-threaded, process otherwise quiet): peak live heap above the pre-build baseline must stay below the a-priori constant rows*cols*(48 + 2*F*24) + pow2(L+2)*(72 + 2*F*24) + 64 KiB (geometry, fan-out F, key length L; never fitted to measurements), must not grow by more than 2% + 4 KiB from one scale to the next in every series whose cache is saturated from the start (geometries with <= 1000 cells; the default 20000-cell table keeps filling up to ~10^7 keys, so there only the constant bound is judged), and nothing may stay live after finish(); series: decimal keys (F=10, L=10) as map with pseudo-random values (unbounded number of distinct nodes) and as set, prefix chains (every key a proper prefix of the next: d, d/, d/x, d/xy), and discarding sinks that accept only 1 or 3 bytes per write call, at N ~ 10^5, 10^6, 10^7 (thorough 3*10^7; trickle sinks one scale smaller), cache geometries through hook H1 (100x2; thorough also 50000x4 and 1x1) and base-64 keys of length 40; non-trivial = every measurement; distinct = (series, N)",
+            rule: "one evaluation = one complete build of N keys streamed to io::sink() with the counting global allocator armed (single-threaded, process otherwise quiet): peak live heap above the pre-build baseline must stay below the a-priori constant rows*cols*(48 + 2*F*24) + pow2(L+2)*(72 + 2*F*24) + 64 KiB (geometry, fan-out F, key length L; never fitted to measurements), must not grow by more than 2% + 4 KiB from one scale to the next in every series whose cache is saturated from the start (geometries with <= 1000 cells; the default 20000-cell table keeps filling up to ~10^7 keys, so there only the constant bound is judged), and nothing may stay live after finish(); series: decimal keys (F=10, L=10) as map with pseudo-random values (unbounded number of distinct nodes) and as set, prefix chains (every key a proper prefix of the next: d, d/, d/x, d/xy), and discarding sinks that accept only 1 or 3 bytes per write call, at N ~ 10^5, 10^6, 10^7 (thorough 3*10^7; trickle sinks one scale smaller), cache geometries through hook H1 (100x2, 7x2, 1x1; thorough also 50000x4), base-64 keys (fan-out 64, i.e. nodes with a transition index; length 6, thorough also 40), and the bulk entry points SetBuilder/MapBuilder::extend_stream and extend_iter fed by on-the-fly generators; non-trivial = every measurement; distinct = (series, N)",
             assumptions: vec!["the restated, decidable claim is bounded scales, not 'for all N'".into(), "byte counts come from the allocator and are deterministic (no RSS, no wall clock)".into()],
-            floors: vec![("measurements", 15), ("scale-pairs-compared", 5)],
+            floors: vec![("measurements", 30), ("scale-pairs-compared", 8)],
             exhaustive: Some(false),
         },
     )
